@@ -463,13 +463,11 @@ func c07Fallback(c *Ctx, sx *symx.Ctx, pf *ssa.Function) {
 
 		// O-2: reachable only via Score >= T or T == 0
 		cut := map[[2]int]bool{}
-		for _, iff := range ssau.Ifs(pf) {
-			if !inLoop(iff.Block()) {
-				continue
-			}
-			op, x, y, ok := ssau.CondOf(iff.Cond)
+		// which side of a condition establishes Score >= T or T == 0
+		classify := func(cond ssa.Value) (onTrue, onFalse bool) {
+			op, x, y, ok := ssau.CondOf(cond)
 			if !ok {
-				continue
+				return
 			}
 			// match.Score < T  (or T > match.Score)
 			if isMatchField(y, "Score") && optLoad(x, "FuzzyThreshold") {
@@ -478,11 +476,11 @@ func c07Fallback(c *Ctx, sx *symx.Ctx, pf *ssa.Function) {
 			if isMatchField(x, "Score") && optLoad(y, "FuzzyThreshold") {
 				switch op {
 				case token.LSS:
-					cut[[2]int{iff.Block().Index, 1}] = true
+					onFalse = true
 				case token.GEQ:
-					cut[[2]int{iff.Block().Index, 0}] = true
+					onTrue = true
 				}
-				continue
+				return
 			}
 			// T == 0 exemption
 			if optLoad(y, "FuzzyThreshold") {
@@ -492,13 +490,29 @@ func c07Fallback(c *Ctx, sx *symx.Ctx, pf *ssa.Function) {
 				if k, isC := ssau.ConstInt(y); isC && k == 0 {
 					switch op {
 					case token.EQL:
-						cut[[2]int{iff.Block().Index, 0}] = true
+						onTrue = true
 					case token.NEQ:
-						cut[[2]int{iff.Block().Index, 1}] = true
+						onFalse = true
 					}
 				}
 			}
+			return
 		}
+		for _, iff := range ssau.Ifs(pf) {
+			if !inLoop(iff.Block()) {
+				continue
+			}
+			t, f0 := classify(iff.Cond)
+			if t {
+				cut[[2]int{iff.Block().Index, 0}] = true
+			}
+			if f0 {
+				cut[[2]int{iff.Block().Index, 1}] = true
+			}
+		}
+		// a condition kept in a variable (skip := T != 0 && Score < T): the test
+		// of the variable establishes, on each side, what its parts establish
+		boolPhiCuts(pf, cut, classify)
 		// reachability from the loop body entry to the append avoiding those edges
 		reach := blocksReachable(loopM.Header, cut)
 		bypass := len(cut) == 0 || reach[ap.Block()]
@@ -535,6 +549,29 @@ func c07Fallback(c *Ctx, sx *symx.Ctx, pf *ssa.Function) {
 						if x == loopM.Index && strings.Contains(f.Plain(y), ".Limit") && (op == token.GEQ || op == token.GTR) && k == 0 {
 							allowed = true
 						}
+					}
+				}
+				if ok && !allowed {
+					// the threshold test kept in a variable: a merge whose parts are
+					// threshold comparisons only
+					cond := iff.Cond
+					if u, isNot := cond.(*ssa.UnOp); isNot && u.Op == token.NOT {
+						cond = u.X
+					}
+					if phi, isPhi := cond.(*ssa.Phi); isPhi {
+						parts, good := 0, true
+						for _, e := range phi.Edges {
+							if _, isC := e.(*ssa.Const); isC {
+								continue
+							}
+							_, x, y, okc := ssau.CondOf(e)
+							if okc && ((isMatchField(x, "Score") && optLoad(y, "FuzzyThreshold")) || (isMatchField(y, "Score") && optLoad(x, "FuzzyThreshold"))) {
+								parts++
+							} else {
+								good = false
+							}
+						}
+						allowed = good && parts > 0
 					}
 				}
 				if !allowed {
